@@ -123,6 +123,9 @@ def _read_midi_length(fileobj):
         # never saw one of those
         raise SMFError("Not supported timing interval")
 
+    if tickdiv == 0:
+        raise SMFError("Invalid timing interval")
+
     # get a list of events and tempo changes for each track
     tracks = []
     first_tempos = None
